@@ -323,3 +323,36 @@ func (r *rmw) BadC6Scalar(n int) {
 	r.total = t
 	r.mu.Unlock()
 }
+
+// ---- C7 ---------------------------------------------------------------------------------------------------------------
+
+type c7obj struct {
+	mu  sync.Mutex
+	n   int
+	max int
+}
+
+// GoodC7Step unlocks on both paths.
+func (c *c7obj) GoodC7Step(d int) int {
+	c.mu.Lock()
+	if c.n >= c.max {
+		c.mu.Unlock()
+		return c.n
+	}
+	c.n += d
+	v := c.n
+	c.mu.Unlock()
+	return v
+}
+
+// BadC7Step returns early with the mutex held.
+func (c *c7obj) BadC7Step(d int) int {
+	c.mu.Lock()
+	if c.n >= c.max {
+		return c.n
+	}
+	c.n += d
+	v := c.n
+	c.mu.Unlock()
+	return v
+}
